@@ -197,6 +197,39 @@ def effects_obligation(prop):
         ctx.count(len(rep.closure), {"functions in the call closure": len(rep.closure), "in-place writes / returns / state reads examined": rep.sites,
                                      "writes to caller-owned objects confirmed harmless (baseline)": n_base,
                                      "entries": len(present)})
+        # per-object state: a method of the call closure that keeps something in an attribute its class did not have before
+        from .instance_attrs_baseline import ATTRS
+        n_attr = 0
+        for q in sorted(rep.closure):
+            cq = ctx.prog.enclosing_class(q)
+            if cq is None or not ctx.prog.has(q):
+                continue
+            known = set()
+            for c_ in ctx.prog.mro(cq):
+                known |= set(ATTRS.get(c_, ()))
+            for sub_, sm_, sn_ in ctx.prog.classes():  # attributes of subclasses are set on the same objects
+                if cq in ctx.prog.mro(sub_):
+                    known |= set(ATTRS.get(sub_, ()))
+            m_, fn_ = ctx.prog.func(q)
+            for n in ast.walk(fn_):
+                name, node = None, None
+                if isinstance(n, (ast.Assign, ast.AugAssign, ast.AnnAssign)):
+                    for t in (n.targets if isinstance(n, ast.Assign) else [n.target]):
+                        for x in ast.walk(t):
+                            if isinstance(x, ast.Attribute) and isinstance(x.value, ast.Name) and x.value.id == "self" and isinstance(x.ctx, ast.Store):
+                                name, node = x.attr, n
+                elif isinstance(n, ast.Call) and isinstance(n.func, ast.Name) and n.func.id == "setattr" and len(n.args) > 1 \
+                        and isinstance(n.args[0], ast.Name) and n.args[0].id == "self" and isinstance(n.args[1], ast.Constant):
+                    name, node = n.args[1].value, n
+                if name is None:
+                    continue
+                n_attr += 1
+                if name not in known and cq in ATTRS:
+                    ctx.finding(q, node, f"{q.split('.')[-1]} keeps a value in the new attribute `self.{name}` of its object: a later call on the same object "
+                                "sees what an earlier call left there (a memoised result goes stale as soon as the table is edited in place, which is how "
+                                "apply_rotation, flip_handedness, renumbering and the .loc stores of this package work)", node, m_,
+                                rule="E-instance-state", attribute=name)
+        ctx.count(n_attr, {"stores to attributes of self examined": n_attr})
         if rep.undecided and not ctx.cur.findings:
             it = rep.undecided[0]
             raise Unsupported(f"{it['kind']} in {it['fn']}: {it['message']}", it["node"])
@@ -331,6 +364,23 @@ def labels_obligation(prop, floor=0):
                 ctx.finding(e.fn, e.node, f"values computed for the rows of '{e.extra['value_space'].chain()}' are stored into the table "
                             f"'{e.extra['frame_space'].chain()}' (columns {e.extra.get('names')}): the two are different selections / orders of the "
                             "particles, so values are paired with the wrong particles", e.node, m)
+        # values computed in floating point stored into an array that inherits the element type of the caller's input
+        for it in its:
+            for e in it.events:
+                if e.kind != "typing" or e.name != "inherited-dtype-store":
+                    continue
+                k = (e.fn, id(e.node), "dtype")
+                if k in seen:
+                    continue
+                seen.add(k)
+                try:
+                    m, _ = ctx.prog.func(e.fn)
+                except Exception:  # noqa
+                    m = None
+                ctx.count(1, None)
+                ctx.finding(e.fn, e.node, "the result of a floating-point computation is stored into an array created with zeros_like / empty_like of the "
+                            "caller's own array: the array inherits the caller's element type, so integer input (axis-aligned normals, voxel "
+                            "positions) truncates every stored value", e.node, m)
         ctx.count(len(its), None)
 
     return Obligation("OX.L", "row pairing: arithmetic and column assignment between labelled tables/columns pair the same particles (E17 labels, "
@@ -368,7 +418,7 @@ def selectors_obligation(prop):
     def run(ctx):
         quals = [q for q in ENTRIES[prop] if ctx.prog.has(q)]
         mods = sorted({q.split(".")[0] for q in quals})
-        n_fn = n_sel = 0
+        n_fn = n_sel = n_acc = 0
         for q, m, fn in ctx.prog.functions():
             if q.split(".")[0] not in mods:
                 continue
@@ -380,7 +430,13 @@ def selectors_obligation(prop):
                             f"the row selector `{name}` is computed from {tab}[{col}] (line {d.lineno}), then {tab}[{col}] is rewritten "
                             f"(`{norm_text(w)[:70]}`), and the selector is used again afterwards (`{norm_text(u)[:70]}`): it still describes the "
                             "rows as they were before the rewrite", u, m)
-        ctx.count(n_fn, {"modules": mods, "functions scanned": n_fn, "named selectors examined": n_sel})
+            lost, ex2 = dataflow.lost_accumulation(m, fn)
+            n_acc += ex2
+            for init, st, loop, name in lost:
+                ctx.finding(q, st, f"`{name}` is started as an empty container before the loop (line {init.lineno}) and used after it, but inside the loop "
+                            f"it is overwritten (`{norm_text(st)[:70]}`) instead of extended: only the last iteration contributes, the results of all "
+                            "earlier iterations are lost", st, m)
+        ctx.count(n_fn, {"modules": mods, "functions scanned": n_fn, "named selectors examined": n_sel, "accumulators examined": n_acc})
 
     return Obligation("OX.S", "named row selectors are not reused after the column they test was rewritten (def-use rule over the property's modules)",
                       run, floor=1)
